@@ -157,9 +157,21 @@ package val
 //@   props C18
 //@   abstract
 
+// Key identity of map keys (C18, C15): at call sites Key is an uninterpreted
+// function of the value; its body is verified against what the key text is
+// made of - the kind tag plus, per kind, the canonical text of the payload
+// (a number through the same FmtInt / FmtFloat as rendering, a time through
+// its full-resolution String()).
 //@ func (*Val).Key
-//@   props C18
+//@   props C18 C15 C04
 //@   abstract
+//@   uses verify-body types.init
+//@   requires v != nil && v.Type != nil
+//@   ensures #tag result.tag == v.Type.Kind
+//@   ensures #bool v.Type.Kind == types.KBool ==> result.val == strconv.FormatBool(v.Bool().V)
+//@   ensures #num v.Type.Kind == types.KNum ==> result.val == ite(v.Num().IsInt(), util.FmtInt(v.Num().Int()), util.FmtFloat(v.Num().V))
+//@   ensures #str v.Type.Kind == types.KStr ==> result.val == strconv.Quote(v.Str().V)
+//@   ensures #time v.Type.Kind == types.KTime ==> result.val == strconv.Quote(v.Time().V.String())
 
 // function tables of an environment: lookups write nothing (C03: the VM
 // compiler, the closure compiler and the interpreter resolve a call through
